@@ -275,6 +275,13 @@ func (n *Node) Build() any {
 		case "aptrstr":
 			a := sStack(s)
 			return &a
+		case "pp": // **Stack
+			ps := &s
+			return &ps
+		case "ppa": // **alias
+			a := aStack(s)
+			pa := &a
+			return &pa
 		}
 		return s
 	case "cond":
@@ -290,6 +297,13 @@ func (n *Node) Build() any {
 		case "aptrstr":
 			a := sCond(c)
 			return &a
+		case "pp": // **Condition
+			pc := &c
+			return &pc
+		case "ppa":
+			a := aCond(c)
+			pa := &a
+			return &pa
 		}
 		return c
 	case "zstack":
@@ -323,7 +337,7 @@ func coqAkind(a string) string {
 	switch a {
 	case "aval":
 		return "AliasVal"
-	case "aptr":
+	case "aptr", "pp", "ppa": // the models do not tell pointer depths apart
 		return "AliasPtr"
 	case "avalstr":
 		return "AliasValStr"
